@@ -473,6 +473,20 @@ def c17h(db, res):
                 cur_const = a[0] in stepped and re.match(r'^-?(0x[0-9a-fA-F]+|[0-9]+)$', a[2]) and a[1] in ('<', '<=', '>', '>=', '==', '!=') and a[2] not in ('0',)
                 res.check(not cur_const, 'C17.h', '%s:loop-exit:%s%s%s' % (name, a[0], a[1], a[2] if not cur_const else 'K'), 'exit on the length of the text or on a byte test',
                           '%s leaves a scan of the text when its cursor `%s` reaches the constant %s: the digits beyond that position are cut off with the trailing junk and a longer number is read as its first digits instead of being refused' % (name, a[0], a[2]), c[0].get('loc', f.loc))
+    # ... and no parser refuses a number because of the LENGTH of its text: leading zeros are part of a number, "0000000000000000000005"
+    # is 5 (overflow is detected on the value, C17.b)
+    for name in NUMERIC_PARSERS:
+        f = db.fn.get(name)
+        if f is None or not f.blocks:
+            continue
+        lens = {p['name'] for p in f.params if p['t'] in ('size_t', 'unsigned long') and 'len' in p['name']}
+        # and counters of text bytes: locals stepped by ++
+        lens |= {strip(u['e'])['name'] for b_, i_, st_ in f.stmts() for u in nodes(st_, lambda y: y.get('k') == 'un' and y['op'] in ('++', '++post') and strip(y['e']).get('k') == 'var')}
+        for bb in sorted(f.blocks):
+            c = f.cond_of(bb)
+            a = P.canon(c[0], True) if c else None
+            if a and a[0] in lens and re.match(r'^(0x[0-9a-fA-F]+|[0-9]+)$', a[2]) and int(a[2], 0) >= 2:
+                res.violated('C17.h', '%s:length-cap:%s%s%s' % (name, a[0], a[1], 'K'), '%s tests the length of the number\'s text against the constant %s: a value written with leading zeros (or any text of that length) is refused although it fits' % (name, a[2]), c[0].get('loc', f.loc))
     res.floor('C17.h', 'loop exits in the numeric parsers', n, 8)
 
 
